@@ -248,7 +248,7 @@ pub fn execute(p: &Program, with_probes: bool) -> Execution {
         initial.push(o);
     }
     // prelude (sequential, before any managed thread exists): dead tickets
-    let churn_spec = OrderSpec { kind: Kind::Standard, display: 1, hidden: 0, buy: false, tif: Tif::Gtc, ts: 50, threshold: 0, amount: None, auto: false, trail: 0, lastref: 0, offset: 0, peg: 0 };
+    let churn_spec = OrderSpec { kind: Kind::Standard, display: 1, hidden: 0, buy: false, tif: Tif::Gtc, ts: 50, threshold: 0, amount: None, auto: false, trail: 0, lastref: 0, offset: 0, peg: 0, own_price: None };
     for k in 0..p.churn {
         let id = OrderId::from_u64(0xC0_0000_0000 + k as u64);
         level.add_order(churn_spec.build(id, p.price));
